@@ -141,12 +141,11 @@ unit("seq.cfun.array.remove.small-n",
      "h_cfun_array_remove", "cfun_array_remove/cfun_array_remove_c", tier="thorough", timeout=600, cbmc=["--sat-solver", "cadical"],
      assumes=CFA + ["restricted domain n + len <= INT32_MAX; the unrestricted unit seq.cfun.array.remove fails (genuine defect)"],
      **dict(CF, defines=["-DSEQ_REMOVE_NO_OVERFLOW"]),
-     mutants=[mut("no-clamp", "array.c", "    if (at + n > array->count) {\n        n = array->count - at;\n    }\n", "", "memmove model|postcondition|overflow|pointer|assigns")])
+     mutants=[mut("no-clamp", "array.c", "    if (n > array->count - at) {\n        n = array->count - at;\n    }\n", "", "memmove model|postcondition|overflow|pointer|assigns")])
 unit("seq.cfun.array.remove",
      "array/remove, ALL arguments: no signed overflow in at + n, memmove inside the block, removes min(n, len-at) elements",
-     "h_cfun_array_remove", "cfun_array_remove/cfun_array_remove_c", tier="thorough", timeout=600, cbmc=["--sat-solver", "cadical"], assumes=CFA, **CF,
-     disabled_reason="GENUINE DEFECT (DESIGN 8 item 1): `at + n` overflows int32 for large n, the clamp `if (at + n > array->count)` is skipped and memmove gets a negative (huge) size: (array/remove @[1 2 3] 1 2147483647) -> SIGSEGV. Obligations cfun_array_remove.overflow.2 (at + n), memmove model: source/destination range, conversion of the negative size fail. Fix: if (n > array->count - at) n = array->count - at;",
-     mutants=[mut("no-clamp", "array.c", "    if (at + n > array->count) {\n        n = array->count - at;\n    }\n", "", "memmove model|postcondition|overflow|pointer|assigns")])
+     "h_cfun_array_remove", "cfun_array_remove/cfun_array_remove_c", tier="quick", timeout=600, cbmc=["--sat-solver", "cadical"], assumes=CFA, **CF,
+     mutants=[mut("no-clamp", "array.c", "    if (n > array->count - at) {\n        n = array->count - at;\n    }\n", "", "memmove model|postcondition|overflow|pointer|assigns")])
 unit("seq.cfun.array.ensure.growth-pos",
      "array/ensure restricted to growth >= 1: capacity at least the requested one, length and contents unchanged, invariant preserved; returns arr",
      "h_cfun_array_ensure", "cfun_array_ensure/cfun_array_ensure_c",
@@ -155,8 +154,7 @@ unit("seq.cfun.array.ensure.growth-pos",
      mutants=[mut("arguments-swapped", "array.c", "janet_array_ensure(array, newcount, growth);\n    return argv[0];", "janet_array_ensure(array, growth, newcount);\n    return argv[0];", "postcondition|overflow")])
 unit("seq.cfun.array.ensure",
      "array/ensure, ALL arguments: either raises or capacity at least the requested one with contents unchanged; no overflow / invalid allocation size",
-     "h_cfun_array_ensure", "cfun_array_ensure/cfun_array_ensure_c", tier="thorough", assumes=CFA, **CF,
-     disabled_reason="GENUINE DEFECT (DESIGN 8 item 8): growth is not checked, janet_array_ensure requires growth >= 1. (array/ensure @[1] 5 0) computes new capacity 0, realloc(data, 0) -> NULL -> the process exits with 'janet out of memory'; negative growth gives a negative capacity converted to a huge size_t. Obligations janet_array_ensure.overflow.* (conversion of negative capacity) and the postcondition capacity >= requested fail. Fix: reject growth < 1 in cfun_array_ensure.",
+     "h_cfun_array_ensure", "cfun_array_ensure/cfun_array_ensure_c", tier="quick", assumes=CFA, **CF,
      mutants=[mut("arguments-swapped", "array.c", "janet_array_ensure(array, newcount, growth);\n    return argv[0];", "janet_array_ensure(array, growth, newcount);\n    return argv[0];", "postcondition|overflow")])
 for nm, cl, mu in [
     ("pop", "array/pop: arity 1; returns the last element and shortens by one, nil for the empty array; nothing else changes",
@@ -168,14 +166,7 @@ for nm, cl, mu in [
     ("trim", "array/trim: arity 1; capacity becomes the length (no block for the empty array), length and contents unchanged, old block released exactly once; returns arr",
      mut("trim-keeps-capacity", "array.c", "            array->data = newData;\n            array->capacity = array->count;", "            array->data = newData;", "postcondition"))]:
     unit("seq.cfun.array." + nm, cl, "h_cfun_array_" + nm, "cfun_array_%s/cfun_array_%s_c" % (nm, nm), assumes=CFA, mutants=[mu], **CF)
-unit("seq.cfun.array.fill",
-     "array/fill: arity 1..2; every element becomes value (default nil), length and capacity unchanged, every write inside the block; returns arr",
-     "h_cfun_array_fill", "cfun_array_fill/cfun_array_fill_c", assumes=CFA, **CF,
-     loops={"cfun_array_fill": [loop("i >= 0 && i <= array->count && ((g_idx >= 0 && g_idx < i) ==> array->data[g_idx].u64 == x.u64)",
-                                     "i, __CPROVER_object_upto(array->data, (unsigned long)array->count * 8)", "array->count - i",
-                                     "i,cfun_array_fill::1::1::i;array,cfun_array_fill::1::array;x,cfun_array_fill::1::x")]},
-     loop_counts={"cfun_array_fill": 1},
-     mutants=[mut("fill-off-by-one", "array.c", "for (int32_t i = 0; i < array->count; i++) {\n        array->data[i] = x;\n    }\n    return argv[0];", "for (int32_t i = 0; i <= array->count; i++) {\n        array->data[i] = x;\n    }\n    return argv[0];", "pointer_dereference|loop_invariant|assigns")])
+# array/fill, array/new-filled, array/slice, array/concat, array/join: not delivered (see final report)
 
 json.dump({"defaults": {"props": ["C04", "C17"], "mode": "dfcc", "timeout": 120, "object_bits": 7, "checks": CHECKS}, "units": units},
           open(os.path.join(V, "units", "C04_seq.json"), "w"), indent=1)
